@@ -487,6 +487,7 @@ func builtinIntercepts() map[string]intercept {
 	m[apiPkg+"Symbolic"] = func(x *Exec, fn *ssa.Function, args []Value) []Value {
 		return []Value{x.e.C.True()}
 	}
+	installHB(m)
 	m[apiPkg+"Procs"] = func(x *Exec, fn *ssa.Function, args []Value) []Value {
 		x.procs = args[0].(*smt.Term)
 		return nil
